@@ -1404,6 +1404,9 @@ func (c *control) dirAS(colon, at bool, params []any, p *slip.Printer) {
 	colinc = c.getIntParam(1, params, colinc, true)
 	minpad = c.getIntParam(2, params, minpad, true)
 	padchar = c.getCharParam(3, params, padchar)
+	if colinc < 1 {
+		c.invalidDirParam(c.str, c.pos)
+	}
 	for ; 0 < minpad; minpad-- {
 		pad = append(pad, padchar...)
 	}
